@@ -136,6 +136,7 @@ type vnChunkReader struct {
 	failAt int // fail (with vnErr) once off >= failAt; -1 = never
 	calls  int
 	min    int // minimum chunk size while data remain (0 allows zero-length reads)
+	eofWith bool // deliver io.EOF together with the last bytes (allowed by io.Reader)
 }
 
 var vnErr = errors.New("vn reader failure")
@@ -165,6 +166,9 @@ func (r *vnChunkReader) Read(p []byte) (int, error) {
 	}
 	copy(p, r.data[r.off:r.off+k])
 	r.off += k
+	if r.eofWith && k > 0 && r.off == len(r.data) && r.failAt < 0 {
+		return k, io.EOF
+	}
 	return k, nil
 }
 
@@ -206,7 +210,7 @@ func VerifInputCtor() {
 		vReach("buffer")
 	case 3: // plain reader, arbitrary chunking, possibly failing after k bytes
 		failAt := vRange("failAt", -1, n)
-		z := NewInput(&vnChunkReader{data: data, failAt: failAt})
+		z := NewInput(&vnChunkReader{data: data, failAt: failAt, eofWith: vBool("eofWith")})
 		if failAt >= 0 {
 			vAssert(z.Err() == vnErr, "ctor-reader-error-lost")
 			vAssert(z.Peek(0) == 0 && z.Len() == 0, "ctor-reader-error-data")
